@@ -429,9 +429,11 @@ MODELS = [("tf", TwoFingerIntersector, 2), ("sa", SkipAheadIntersector, 2),
           ("lf0", LeaderFollowerIntersector, 0), ("lf1", LeaderFollowerIntersector, 1)]
 
 
-def session(case, sizes):
+def session(case, sizes, only=None):
     """Run the loop nest once; hand the rows consumed after each batch to every
-    model.  Returns {model: total | ("assert", batch index)}."""
+    model.  Returns {model: total | ("assert", batch index)}.
+    only = 0 | 1: a leader-follower unit sits at ONE operand, so only that operand's trace is declared (and only
+    its model is fed)."""
     built = build_loose(case) if case["mode"] == "loose" else build_tensors(case)
     ends = set()
     s = 0
@@ -444,12 +446,18 @@ def session(case, sizes):
     assert not Metrics.isCollecting()
     Metrics.beginCollect()
     try:
-        Metrics.trace("K", "intersect_0", consumable=True)
-        Metrics.trace("K", "intersect_1", consumable=True)
+        if only != 1:
+            Metrics.trace("K", "intersect_0", consumable=True)
+        if only != 0:
+            Metrics.trace("K", "intersect_1", consumable=True)
 
         def after():
             state["done"] += 1
             if state["done"] not in ends:
+                return
+            if only is not None:
+                models[f"lf{only}"].addTraces(Metrics.consumeTrace("K", f"intersect_{only}"))
+                state["batch"] += 1
                 return
             t0 = Metrics.consumeTrace("K", "intersect_0")
             t1 = Metrics.consumeTrace("K", "intersect_1")
@@ -551,6 +559,17 @@ def check_intersect(case, rec):
             if isinstance(g, tuple):
                 raise Violation("crash", desc)
             raise Violation(("count-" if sizes == [1] * n else "batch-") + name, desc)
+
+    # a leader-follower unit needs the trace of its own operand only
+    k = len(pairs) % 3
+    if k < 2:
+        for sizes in ([1] * n, [n]):
+            g = session(case, sizes, only=k)[f"lf{k}"]
+            if g != want[f"lf{k}"]:
+                raise Violation(f"count-lf{k}", f"lf{k} model in a session that declares only intersect_{k}, batches {sizes}: "
+                                f"got {g}, the operand presents {want[f'lf{k}']} elements; presented lists {lists}, "
+                                f"outer {case['outer']}, mode {case['mode']}")
+        rec.cls("single-trace-session")
 
     # classification
     kinds = set()
